@@ -57,6 +57,29 @@ pub use secp256::{
 #[cfg(test)]
 mod tests;
 
+/// Verification hook (off unless built with the `verif-hooks` feature): exposes both
+/// secp256k1 backends side by side so one build can compare them on the same inputs.
+#[cfg(all(feature = "verif-hooks", feature = "std"))]
+#[allow(missing_docs)]
+pub mod verif_k1 {
+    pub mod k256 {
+        pub use crate::secp256::backend::k1::k256::{
+            public_key,
+            recover,
+            sign,
+            verify,
+        };
+    }
+    pub mod secp256k1 {
+        pub use crate::secp256::backend::k1::secp256k1::{
+            public_key,
+            recover,
+            sign,
+            verify,
+        };
+    }
+}
+
 pub use error::Error;
 pub use hasher::Hasher;
 pub use message::Message;
